@@ -1411,7 +1411,7 @@ class PathExec(object):
                 # bound method of a concrete object
                 args = [ConstV(f.__self__)] + list(args)
                 f = f.__func__
-            ct = C.REGISTRY.get(id(f))
+            ct = C.REGISTRY.get(id(f)) if getattr(eng, 'use_contracts', True) else None
             if ct is not None:
                 if ct.inline and eng.inline_depth < 4:
                     yield from self.inline_real(ct.func, args, kwargs, st, guard, lineno)
@@ -2166,6 +2166,12 @@ def merge_states(a, b):
             continue
         if isinstance(va, FuncV) and isinstance(vb, FuncV) and va.node is vb.node:
             continue
+        mv = getattr(merge_states, 'merge_val', None)
+        if mv is not None:
+            j = mv(va, vb)
+            if j is not None:
+                a.env[k] = j
+                continue
         a.env[k] = UnkV('merged %s' % k)
     for k in b.env:
         if k not in a.env:
